@@ -96,6 +96,11 @@ def build(ctx, oq, rng, cfg):
         wf = (torch.from_numpy(rng.standard_normal((N, K))) * row_mag).to(wd)
         xf = (torch.from_numpy(rng.standard_normal(xshape)) * float(np.exp(rng.uniform(np.log(0.05), np.log(20))))).to(wd)
         sx = None
+    # memory layout of the weight source: column-major storage (what a transposed checkpoint tensor looks like) keeps the
+    # values; the quantized tensor inherits the strides
+    wlay = cfg.get("wlay", "contiguous")
+    if wlay == "transposed_storage" and not lowbit:
+        wf = wf.t().contiguous().t()
     # quantize the weight through the public API
     if lowbit:
         gs = cfg.get("gs")
@@ -103,6 +108,8 @@ def build(ctx, oq, rng, cfg):
     elif wk == "qint8_pt":
         sc = (wf.abs().max().to(F64) / 127).to(wd)
         w = oq.quantize_activation(wf, qt["qint8"], sc)
+        if wlay == "expanded_rows" and mode != "exact":
+            w = w[:1].expand(N, K)  # every output feature shares one row (stride 0)
     elif wk.endswith("_lastaxis"):
         w = oq.quantize_weight(wf, qt["qint8" if wk.startswith("qint8") else "qfloat8_e4m3fn"], -1)
     else:
@@ -415,7 +422,8 @@ def run(ctx):
                        brank=int(rng.choice([1, 2, 2, 2, 3, 3, 4])), bias=bool(rng.random() < 0.5),
                        mode="exact" if rng.random() < 0.45 else "realistic",
                        xlay=["contiguous", "contiguous", "contiguous", "transposed", "transposed", "sliced", "expanded_col",
-                             "expanded_row"][int(rng.integers(8))])
+                             "expanded_row"][int(rng.integers(8))],
+                       wlay=["contiguous", "contiguous", "contiguous", "transposed_storage", "expanded_rows"][int(rng.integers(5))])
             if wk.endswith("_lastaxis"):
                 cfg["mode"] = "realistic"
                 if K < 2:
